@@ -50,15 +50,19 @@ type Result struct {
 }
 
 // Interp runs the automaton over data with the given budget (0 = unlimited),
-// stopping at EOF state, failure or end of input.
+// stopping at EOF state or end of input.  After a failure (budget exhausted)
+// the automaton keeps running with its output discarded: that is the drain.
 func (t Table) Interp(data []byte, bud int) Result {
 	r := Result{State: "BeginLine"}
 	for i, b := range data {
-		if r.State == "EOF" || r.Fail {
+		if r.State == "EOF" {
 			break
 		}
 		cell := t[r.State][Class(b)]
 		for k := range cell.Emit {
+			if r.Fail {
+				break
+			}
 			// every emitted octet but the last is a saved CR; the last is b
 			o := byte('\r')
 			if k == len(cell.Emit)-1 {
@@ -115,6 +119,11 @@ type Real struct {
 	State    string
 	Consumed int
 	States   []string // state after each Read
+	// after ErrDataTooLarge the limit is lifted and the rest is drained, as
+	// the server does
+	DrainErr      error
+	DrainState    string
+	DrainConsumed int
 }
 
 // RunReal drives the real dataReader over data delivered in segments segs
@@ -136,6 +145,17 @@ func RunReal(data []byte, segs []int, rb int, bud int) Real {
 	}
 	r.State = stateNames[dr.State()]
 	r.Consumed = src.pos - br.Buffered()
+	if r.Err == smtp.ErrDataTooLarge {
+		dr.Unlimit()
+		for iter := 0; iter < len(data)+10; iter++ {
+			if _, err := dr.Read(buf); err != nil {
+				r.DrainErr = err
+				break
+			}
+		}
+		r.DrainState = stateNames[dr.State()]
+		r.DrainConsumed = src.pos - br.Buffered()
+	}
 	return r
 }
 
@@ -150,6 +170,17 @@ func Compare(t Table, data []byte, segs []int, rb, bud int) string {
 	case exp.Fail:
 		if got.Err != smtp.ErrDataTooLarge {
 			return fmt.Sprintf("result: spec too-large, reader %v", got.Err)
+		}
+		// the drain ends at the same end marker as without a limit
+		if exp.State == "EOF" {
+			if got.DrainErr != io.EOF {
+				return fmt.Sprintf("drain: spec drains the over-long message through its end marker (%d octets), the drain ended with %v", exp.Consumed, got.DrainErr)
+			}
+			if got.DrainConsumed != exp.Consumed {
+				return fmt.Sprintf("drain position: spec drains %d octets (through the end marker), the reader drained %d", exp.Consumed, got.DrainConsumed)
+			}
+		} else if got.DrainErr == nil || got.DrainErr == io.EOF {
+			return fmt.Sprintf("drain: the stream has no end marker, the drain ended with %v after %d octets", got.DrainErr, got.DrainConsumed)
 		}
 	case exp.State == "EOF":
 		if got.Err != io.EOF {
